@@ -29,7 +29,7 @@ def main():
             det, key = 'yes', kb
         else:
             ka = first_key(after[name]) if name in after else None
-            det = '**no**' + (' - after the repairs of 10.10: yes' if ka else '')
+            det = '**no**' + (' - after the repairs: yes' if ka else '')
             key = ka or '-'
         print('| %s | %s | %s | %s | `%s` |' % (name, meta['change'].replace('|', '/'),
                                               meta['needs'].replace('|', '/'), det, key))
